@@ -12,13 +12,14 @@ Inductive auth_op :=
 | CBearer (t : bytes)       (* Client.SetCommonBearerAuthToken *)
 | RBasic (u p : bytes)      (* Request.SetBasicAuth *)
 | RBearer (t : bytes)       (* Request.SetBearerAuthToken *)
-| Send.                     (* Request.Do: unmerge, merge, transmit *)
+| Send                      (* Request.Do: unmerge, merge, transmit *)
+| SendR.                    (* Request.Do whose first attempt gets a retryable result: two attempts *)
 
 (* Request.Headers["Authorization"]: the value and whether the slice is the one the last
-   execution merged from the client *)
-Record rq_state := mkRq { st_client : option bytes; st_req : option (bytes * bool) }.
+   execution merged from the client; Request.RetryAttempt as the last execution left it *)
+Record rq_state := mkRq { st_client : option bytes; st_req : option (bytes * bool); st_attempt : nat }.
 
-Definition rq_init : rq_state := mkRq None None.
+Definition rq_init : rq_state := mkRq None None 0.
 
 (* [still_merged cur merged_flag]: unmergeClientSettings' test on the current slice *)
 Definition unmerge_identity (cur : option (bytes * bool)) : option (bytes * bool) :=
@@ -27,36 +28,47 @@ Definition unmerge_identity (cur : option (bytes * bool)) : option (bytes * bool
   | x => x
   end.
 
-(* one execution: take back, merge the client's current header if the request has none, transmit *)
-Definition rq_send_with (unmerge : option (bytes * bool) -> option (bytes * bool)) (s : rq_state)
-  : option bytes * rq_state :=
-  let r1 := unmerge (st_req s) in
-  let r2 := match r1 with
-            | Some x => Some x
-            | None => match st_client s with Some c => Some (c, true) | None => None end
-            end in
-  (option_map fst r2, mkRq (st_client s) r2).
+(* unmergeClientSettings also resets RetryAttempt - always (the code); a seeded change returned
+   early when nothing had been merged, leaving RetryAttempt as it was *)
+Definition reset_always (s : rq_state) : nat := 0.
+Definition reset_if_merged (s : rq_state) : nat :=
+  match st_req s with Some (_, true) => 0 | _ => st_attempt s end.
 
-Definition rq_step_with unmerge (s : rq_state) (o : auth_op) : option (option bytes) * rq_state :=
-  match o with
-  | CBasic u p => (None, mkRq (Some (basic_header u p)) (st_req s))
-  | CBearer t => (None, mkRq (Some (bearer_header t)) (st_req s))
-  | RBasic u p => (None, mkRq (st_client s) (Some (basic_header u p, false)))
-  | RBearer t => (None, mkRq (st_client s) (Some (bearer_header t, false)))
-  | Send => let '(h, s') := rq_send_with unmerge s in (Some h, s')
+(* parseRequestHeader: the client's header is merged while RetryAttempt = 0, if the request has none *)
+Definition merge_header (attempt : nat) (client : option bytes) (r : option (bytes * bool)) : option (bytes * bool) :=
+  match attempt, r with
+  | O, None => match client with Some c => Some (c, true) | None => None end
+  | _, x => x
   end.
 
-(* the Authorization header of every execution, in order (None = no header) *)
-Fixpoint rq_run_with unmerge (s : rq_state) (ops : list auth_op) : list (option bytes) :=
+(* one execution: take back, reset, then per attempt merge and transmit *)
+Definition rq_send_with (unmerge : option (bytes * bool) -> option (bytes * bool)) (reset : rq_state -> nat)
+           (retried : bool) (s : rq_state) : list (option bytes) * rq_state :=
+  let a0 := reset s in
+  let r1 := unmerge (st_req s) in
+  let r2 := merge_header a0 (st_client s) r1 in
+  if retried
+  then let r3 := merge_header (S a0) (st_client s) r2 in
+       ([option_map fst r2; option_map fst r3], mkRq (st_client s) r3 (S a0))
+  else ([option_map fst r2], mkRq (st_client s) r2 a0).
+
+Definition rq_step_with unmerge reset (s : rq_state) (o : auth_op) : list (option bytes) * rq_state :=
+  match o with
+  | CBasic u p => ([], mkRq (Some (basic_header u p)) (st_req s) (st_attempt s))
+  | CBearer t => ([], mkRq (Some (bearer_header t)) (st_req s) (st_attempt s))
+  | RBasic u p => ([], mkRq (st_client s) (Some (basic_header u p, false)) (st_attempt s))
+  | RBearer t => ([], mkRq (st_client s) (Some (bearer_header t, false)) (st_attempt s))
+  | Send => rq_send_with unmerge reset false s
+  | SendR => rq_send_with unmerge reset true s
+  end.
+
+(* the Authorization header of every transmission, in order (None = no header) *)
+Fixpoint rq_run_with unmerge reset (s : rq_state) (ops : list auth_op) : list (option bytes) :=
   match ops with
   | [] => []
-  | o :: r => let '(out, s') := rq_step_with unmerge s o in
-              match out with
-              | Some h => h :: rq_run_with unmerge s' r
-              | None => rq_run_with unmerge s' r
-              end
+  | o :: r => let '(out, s') := rq_step_with unmerge reset s o in out ++ rq_run_with unmerge reset s' r
   end.
-Definition rq_run := rq_run_with unmerge_identity.
+Definition rq_run := rq_run_with unmerge_identity reset_always.
 
 (* ---------- what must be transmitted: the credentials given ---------- *)
 
@@ -68,7 +80,7 @@ Definition spec_step (s : spec_state) (o : auth_op) : spec_state :=
   | CBearer t => mkSp (Some (bearer_header t)) (sp_req s)
   | RBasic u p => mkSp (sp_client s) (Some (basic_header u p))
   | RBearer t => mkSp (sp_client s) (Some (bearer_header t))
-  | Send => s
+  | Send | SendR => s
   end.
 Definition spec_sent (s : spec_state) : option bytes :=
   match sp_req s with Some h => Some h | None => sp_client s end.
@@ -76,6 +88,7 @@ Fixpoint spec_run (s : spec_state) (ops : list auth_op) : list (option bytes) :=
   match ops with
   | [] => []
   | Send :: r => spec_sent s :: spec_run s r
+  | SendR :: r => spec_sent s :: spec_sent s :: spec_run s r   (* the retry sends what the first attempt sent *)
   | o :: r => spec_run (spec_step s o) r
   end.
 
@@ -89,6 +102,7 @@ Fixpoint rqv_run (s : rqv_state) (ops : list auth_op) : list (option bytes) :=
   | CBearer t :: r => rqv_run (mkRqv (Some (bearer_header t)) (sv_req s) (sv_merged s)) r
   | RBasic u p :: r => rqv_run (mkRqv (sv_client s) (Some (basic_header u p)) (sv_merged s)) r
   | RBearer t :: r => rqv_run (mkRqv (sv_client s) (Some (bearer_header t)) (sv_merged s)) r
+  | SendR :: r => rqv_run s r   (* not used with this variant *)
   | Send :: r =>
       let r1 := match sv_req s, sv_merged s with
                 | Some cur, Some m => if bytes_eqb cur m then None else Some cur
